@@ -95,7 +95,9 @@ struct Engine {
     checked();
     std::string why;
     if (!flag_consistent((int) p.space_dimension(), p, R, why)) { violation(key(op, "flag_stale"), why + "; " + showU(R)); return false; }
-    if (!p.OK()) { violation(key(op, "not_OK"), "OK() returned false; " + showU(R)); return false; }
+    if (!p.OK()) {
+      bool base = false; for (typename PS::const_iterator i = p.begin(), e = p.end(); i != e; ++i) if (!i->pointset().OK()) base = true;
+      violation(key(op, "not_OK", base ? "base-level-disjunct-not-OK" : ""), "OK() returned false; " + showU(R)); return false; }
     return true;
   }
 
@@ -227,6 +229,15 @@ struct Engine {
     if (p == 0) { signal(SIGFPE, SIG_DFL); signal(SIGSEGV, SIG_DFL); signal(SIGABRT, SIG_DFL); signal(SIGBUS, SIG_DFL); signal(SIGILL, SIG_DFL); try { f(); } catch (...) {} _exit(0); }
     int st = 0; if (waitpid(p, &st, 0) != p) return 0;
     return WIFSIGNALED(st) ? WTERMSIG(st) : 0;
+  }
+  // value computed in a forked child: exit code, or -signal when the child died
+  static int probe_value(const std::function<int()>& f) {
+    fflush(0);
+    pid_t p = fork();
+    if (p < 0) return 0;
+    if (p == 0) { signal(SIGFPE, SIG_DFL); signal(SIGSEGV, SIG_DFL); signal(SIGABRT, SIG_DFL); signal(SIGBUS, SIG_DFL); signal(SIGILL, SIG_DFL); int r = 0; try { r = f(); } catch (...) {} _exit(r & 127); }
+    int st = 0; if (waitpid(p, &st, 0) != p) return 0;
+    return WIFSIGNALED(st) ? -WTERMSIG(st) : WEXITSTATUS(st);
   }
   static bool expected_unary(const UOp& op, const std::vector<D>& ev, Un& E) {
     if (risky(op.name)) {
